@@ -172,7 +172,9 @@ Proof. vm_compute. repeat split. Qed.
    The same statement ("no partial primitive of the model fails, for every byte
    string") for the decoders whose models live with other properties, restated
    here so that C01 lists every family it rests on:
-     lax slicing (C05), struct decoding (C04); the TCP option iterator (C13_in_bounds),
+     lax slicing (C05), struct decoding (C04; LaxPacketHeaders::{from_ethernet, from_ether_type,
+     from_ip}: C04_lax_headers_never_bug in Props/C04.v); the TCP option iterator
+     (C13_in_bounds),
      the ICMP/NDP/IGMP/ARP views (C17_*: the specifications contain no UB value),
      defragmentation (C11_no_panic), extension chains (C12_write_iff_walk) and the
      readers (C16_readers_total) are stated in their own Props files. *)
@@ -365,3 +367,183 @@ Example C01_lax_macsec_ex :
    [Some (true, LsSlice)]).
 Proof. vm_compute. reflexivity. Qed.
 (* ---- end extend-c01b ---- *)
+
+(* ---- audit follow-up (round 1) ---- *)
+(* ======================================================================== *)
+(* The strict single-layer CONSTRUCTORS themselves, on an arbitrary standalone slice
+   (any pointer offset, any contents -- no byte-range hypothesis --, any length, accepted
+   or rejected): the run never returns Bug, i.e. no unchecked read / from_raw_parts /
+   checked index / usize subtraction / unwrap fails and the fuel of the extension walk
+   (length + 1) is never exhausted.  One conjunct per public constructor (the 20 types of
+   C01_single_layer_accessors; Ipv6ExtensionsSlice::from_slice for every start number;
+   UdpSlice::from_slice_lax repeated here without the buffer hypothesis of
+   C01_lax_single_no_oob).  Proofs: Parse/CtorsTotal.v. *)
+From EP Require Import Parse.CtorsTotal.
+
+Theorem C01_single_layer_ctor_no_oob : forall s,
+  nobug (Ethernet2A.from_slice_without_fcs s) /\ nobug (Ethernet2A.from_slice_with_crc32_fcs s) /\
+  nobug (LinuxSll.header_from_slice s) /\ nobug (LinuxSll.from_slice s) /\
+  nobug (SingleVlanSlice.from_slice s) /\
+  nobug (Macsec.header_from_slice s) /\ nobug (Macsec.from_slice s) /\
+  nobug (ArpPacketSlice.from_slice s) /\
+  nobug (Ipv4HeaderSlice.from_slice s) /\ nobug (Ipv4Slice.from_slice s) /\
+  nobug (Ipv6HeaderSlice.from_slice s) /\ nobug (Ipv6Slice.from_slice s) /\
+  nobug (IpSlice.from_slice s) /\
+  nobug (IpAuthHeaderSlice.from_slice s) /\ nobug (Ipv6RawExtHeaderSlice.from_slice s) /\
+  nobug (Ipv6FragmentHeaderSlice.from_slice s) /\
+  (forall nh, nobug (Ipv6ExtensionsSlice.from_slice nh s)) /\
+  nobug (UdpSlice.header_from_slice s) /\ nobug (UdpSlice.from_slice s) /\
+  nobug (UdpSlice.from_slice_lax s) /\
+  nobug (TcpHeaderSliceA.from_slice s) /\ nobug (TcpSlice.from_slice s) /\
+  nobug (Icmpv4Slice.from_slice s) /\ nobug (Icmpv6Slice.from_slice s).
+Proof. exact single_layer_ctor_no_bug. Qed.
+Print Assumptions C01_single_layer_ctor_no_oob.
+
+(* every slice STORED in the value a strict single-layer constructor returns is a
+   from_raw_parts-window of the input slice: `sub_of w s` = exists k n, subU s k n = Ok w,
+   i.e. k + n <= len s, the pointer of w is the pointer of s + k and its contents are the n
+   bytes of s behind k (C01_window_arith gives the arithmetic reading).  This surfaces, for
+   all 20 types, what C01_single_layer_accessors states through `win_ok` only for the windows
+   handed back by accessors: in particular header / auth / payload of Ipv4Slice (and the
+   windows its header and auth accessors return), header / extension window / payload of
+   Ipv6Slice, header / payload of MacsecSlice, and the header slices of MACsec, IPv6, the
+   fragment header and UDP *)
+Theorem C01_single_layer_windows :
+  (forall s e, Ethernet2A.from_slice_without_fcs s = Ok e \/ Ethernet2A.from_slice_with_crc32_fcs s = Ok e ->
+     e2_slice e = s) /\
+  (forall s h, LinuxSll.header_from_slice s = Ok h -> sub_of h s) /\
+  (forall s x, LinuxSll.from_slice s = Ok x -> sub_of (fst x) s /\ snd x = s) /\
+  (forall s v, SingleVlanSlice.from_slice s = Ok v -> v = s) /\
+  (forall s h, Macsec.header_from_slice s = Ok h -> sub_of h s) /\
+  (forall s m, Macsec.from_slice s = Ok m ->
+     sub_of (ms_header m) s /\ sub_of (macsec_payload_slice m) s) /\
+  (forall s a, ArpPacketSlice.from_slice s = Ok a -> sub_of a s) /\
+  (forall s h, Ipv4HeaderSlice.from_slice s = Ok h -> sub_of h s) /\
+  (forall s v, Ipv4Slice.from_slice s = Ok v \/ IpSlice.from_slice s = Ok (IpV4 v) ->
+     sub_of (v4_header v) s /\ (forall a, v4_auth v = Some a -> sub_of a s) /\
+     sub_of (ipp_slice (v4_payload v)) s /\ Forall (win_ok s) (Ipv4SliceA.windows v)) /\
+  (forall s h, Ipv6HeaderSlice.from_slice s = Ok h -> sub_of h s) /\
+  (forall s v, Ipv6Slice.from_slice s = Ok v \/ IpSlice.from_slice s = Ok (IpV6 v) ->
+     sub_of (v6_header v) s /\ sub_of (x6_slice (v6_exts v)) s /\ sub_of (ipp_slice (v6_payload v)) s) /\
+  (forall s h, IpAuthHeaderSlice.from_slice s = Ok h -> sub_of h s) /\
+  (forall s h, Ipv6RawExtHeaderSlice.from_slice s = Ok h -> sub_of h s) /\
+  (forall s h, Ipv6FragmentHeaderSlice.from_slice s = Ok h -> sub_of h s) /\
+  (forall nh s x nx rest, Ipv6ExtensionsSlice.from_slice nh s = Ok (x, nx, rest) ->
+     sub_of (x6_slice x) s /\ sub_of rest s) /\
+  (forall s h, UdpSlice.header_from_slice s = Ok h -> sub_of h s) /\
+  (forall s u, UdpSlice.from_slice s = Ok u \/ UdpSlice.from_slice_lax s = Ok u -> sub_of u s) /\
+  (forall s h, TcpHeaderSliceA.from_slice s = Ok h -> sub_of h s) /\
+  (forall s x, TcpSlice.from_slice s = Ok x -> snd x = s) /\
+  (forall s v, Icmpv4Slice.from_slice s = Ok v -> v = s) /\
+  (forall s v, Icmpv6Slice.from_slice s = Ok v -> v = s).
+Proof. exact single_layer_stored_windows. Qed.
+Print Assumptions C01_single_layer_windows.
+
+(* ---- "the result depends only on the bytes of the slice, not on where it is located or
+   on the bytes around it" (Parse/ShiftInv.v).  `from_X_at s` is the body of
+   SlicedPacket::from_X with the input slice as a parameter (from_X_at (mk_slice bs) =
+   SlicedPacket.from_X bs by definition); `sh k s` is s with its pointer moved by k
+   (Equiv/ShiftProofs.v), `sh_pkt k` moves every slice stored in a result and leaves every
+   number alone, `rmap f` maps Ok values and leaves Err and Bug values EQUAL. *)
+From EP Require Import Equiv.Model Equiv.ShiftProofs Parse.ShiftInv.
+
+Theorem C01_entry_at_mk_slice : forall bs et,
+  from_ethernet_at (mk_slice bs) = SlicedPacket.from_ethernet bs /\
+  from_linux_sll_at (mk_slice bs) = SlicedPacket.from_linux_sll bs /\
+  from_ether_type_at et (mk_slice bs) = SlicedPacket.from_ether_type et bs /\
+  from_ip_at (mk_slice bs) = SlicedPacket.from_ip bs.
+Proof. exact at_mk_slice. Qed.
+Print Assumptions C01_entry_at_mk_slice.
+
+(* an input located k bytes into its allocation: the answer for (0, bs) with every stored
+   pointer + k; errors (incl. layer_start_offset, which counts from the start of the
+   slice) equal *)
+Theorem C01_location_independent : forall k bs et,
+  from_ethernet_at (k, bs) = rmap (sh_pkt k) (SlicedPacket.from_ethernet bs) /\
+  from_linux_sll_at (k, bs) = rmap (sh_pkt k) (SlicedPacket.from_linux_sll bs) /\
+  from_ether_type_at et (k, bs) = rmap (sh_pkt k) (SlicedPacket.from_ether_type et bs) /\
+  from_ip_at (k, bs) = rmap (sh_pkt k) (SlicedPacket.from_ip bs).
+Proof. exact strict_entry_located. Qed.
+Print Assumptions C01_location_independent.
+
+(* a window [pos, lim) of a larger buffer: the answer is that of a standalone copy of the
+   window's bytes (moved by pos) -- no byte of bs outside the window has any influence *)
+Theorem C01_surroundings_independent : forall bs s pos lim et,
+  repr bs s pos lim ->
+  let w := take (lim - pos) (drop pos bs) in
+  from_ethernet_at s = rmap (sh_pkt pos) (SlicedPacket.from_ethernet w) /\
+  from_linux_sll_at s = rmap (sh_pkt pos) (SlicedPacket.from_linux_sll w) /\
+  from_ether_type_at et s = rmap (sh_pkt pos) (SlicedPacket.from_ether_type et w) /\
+  from_ip_at s = rmap (sh_pkt pos) (SlicedPacket.from_ip w).
+Proof. exact strict_entry_window. Qed.
+Print Assumptions C01_surroundings_independent.
+
+(* the same for every strict single-layer constructor and every slice *)
+Theorem C01_single_layer_location_independent : forall k s,
+  Ethernet2A.from_slice_without_fcs (sh k s) = rmap (sh_eth2 k) (Ethernet2A.from_slice_without_fcs s) /\
+  Ethernet2A.from_slice_with_crc32_fcs (sh k s) = rmap (sh_eth2 k) (Ethernet2A.from_slice_with_crc32_fcs s) /\
+  LinuxSll.header_from_slice (sh k s) = rmap (sh k) (LinuxSll.header_from_slice s) /\
+  LinuxSll.from_slice (sh k s) = rmap (sh_pair k) (LinuxSll.from_slice s) /\
+  SingleVlanSlice.from_slice (sh k s) = rmap (sh k) (SingleVlanSlice.from_slice s) /\
+  Macsec.header_from_slice (sh k s) = rmap (sh k) (Macsec.header_from_slice s) /\
+  Macsec.from_slice (sh k s) = rmap (sh_ms k) (Macsec.from_slice s) /\
+  ArpPacketSlice.from_slice (sh k s) = rmap (sh k) (ArpPacketSlice.from_slice s) /\
+  Ipv4HeaderSlice.from_slice (sh k s) = rmap (sh k) (Ipv4HeaderSlice.from_slice s) /\
+  Ipv4Slice.from_slice (sh k s) = rmap (sh_v4 k) (Ipv4Slice.from_slice s) /\
+  Ipv6HeaderSlice.from_slice (sh k s) = rmap (sh k) (Ipv6HeaderSlice.from_slice s) /\
+  Ipv6Slice.from_slice (sh k s) = rmap (sh_v6 k) (Ipv6Slice.from_slice s) /\
+  IpSlice.from_slice (sh k s) = rmap (sh_ip k) (IpSlice.from_slice s) /\
+  IpAuthHeaderSlice.from_slice (sh k s) = rmap (sh k) (IpAuthHeaderSlice.from_slice s) /\
+  Ipv6RawExtHeaderSlice.from_slice (sh k s) = rmap (sh k) (Ipv6RawExtHeaderSlice.from_slice s) /\
+  Ipv6FragmentHeaderSlice.from_slice (sh k s) = rmap (sh k) (Ipv6FragmentHeaderSlice.from_slice s) /\
+  (forall nh, Ipv6ExtensionsSlice.from_slice nh (sh k s) = rmap (sh_x6r k) (Ipv6ExtensionsSlice.from_slice nh s)) /\
+  UdpSlice.header_from_slice (sh k s) = rmap (sh k) (UdpSlice.header_from_slice s) /\
+  UdpSlice.from_slice (sh k s) = rmap (sh k) (UdpSlice.from_slice s) /\
+  UdpSlice.from_slice_lax (sh k s) = rmap (sh k) (UdpSlice.from_slice_lax s) /\
+  TcpHeaderSliceA.from_slice (sh k s) = rmap (sh k) (TcpHeaderSliceA.from_slice s) /\
+  TcpSlice.from_slice (sh k s) = rmap (sh_tcp k) (TcpSlice.from_slice s) /\
+  Icmpv4Slice.from_slice (sh k s) = rmap (sh k) (Icmpv4Slice.from_slice s) /\
+  Icmpv6Slice.from_slice (sh k s) = rmap (sh k) (Icmpv6Slice.from_slice s).
+Proof. exact single_layer_shift_invariant. Qed.
+Print Assumptions C01_single_layer_location_independent.
+
+(* ---- non-vacuity ---------------------------------------------------------- *)
+(* rejected and accepted inputs of the constructors: truncated headers, a bad IHL, an IPv6
+   chain whose last header is cut, an empty slice -- every run is Err (never Bug); and the
+   unchecked primitives behind them DO fail when used without the length test *)
+Definition ctor_outcome {A} (r : res A) : N :=
+  match r with Ok _ => 0 | Err (ELen _) => 1 | Err (EContent _) => 2 | Bug _ => 3 end.
+
+Example C01_ctor_ex :
+  (ctor_outcome (Ipv4HeaderSlice.from_slice (mk_slice [69;0;0])),
+   ctor_outcome (Ipv4HeaderSlice.from_slice (mk_slice (68 :: repeat 0 22))),
+   ctor_outcome (Ipv4Slice.from_slice (mk_slice ([69;0;0;20; 0;0;0;0; 64;51;0;0; 1;2;3;4; 5;6;7;8] ++ [17;9;0;0]))),
+   ctor_outcome (IpSlice.from_slice (mk_slice [])),
+   ctor_outcome (IpSlice.from_slice (mk_slice [66])),
+   ctor_outcome (Ipv6ExtensionsSlice.from_slice 0 (mk_slice [43;0;0;0;0;0;0;0; 59;1;0;0])),
+   ctor_outcome (Ipv6ExtensionsSlice.from_slice 60 (mk_slice ([0;0] ++ repeat 0 6))),
+   ctor_outcome (Macsec.from_slice (mk_slice [0;40;0;0;0;1;8;0])),
+   ctor_outcome (TcpHeaderSliceA.from_slice (mk_slice (repeat 0 12 ++ [240] ++ repeat 0 7))),
+   ctor_outcome (ArpPacketSlice.from_slice (7, [0;1;8;0;6;4;0;1]))) =
+  (1, 2, 1, 1, 2, 1, 2, 1, 1, 1) /\
+  subU (mk_slice [69;0;0]) 0 20 = Bug SITE_SUB /\ rdU (mk_slice []) 0 = Bug SITE_RD /\
+  Ipv6ExtensionsSlice.walk 1 8 (mk_slice [43;0;0;0;0;0;0;0]) 60 false = Bug SITE_FUEL.
+Proof. vm_compute. repeat split. Qed.
+
+(* the Ethernet / VLAN / IPv4 / UDP packet of C01_accessors_ex located 1000 bytes into its
+   allocation: same layers, every window 1000 later; cut to 47 bytes: the same error *)
+Example C01_location_ex :
+  match from_ethernet_at (1000, ex_pkt_acc) with
+  | Ok p => wins (SlicedPacketA.windows p)
+  | _ => []
+  end =
+  [Some (1000, 50); Some (1000, 14); Some (1014, 36);
+   Some (1014, 36); Some (1014, 4); Some (1018, 32);
+   Some (1018, 20); Some (1038, 12); Some (1038, 0);
+   Some (1038, 12); Some (1038, 8); Some (1046, 4)] /\
+  from_ethernet_at (1000, firstn 47 ex_pkt_acc) =
+  Err (ELen (mkLenError 32 29 LsSlice LyIpv4Packet 18)) /\
+  SlicedPacket.from_ethernet (firstn 47 ex_pkt_acc) =
+  Err (ELen (mkLenError 32 29 LsSlice LyIpv4Packet 18)).
+Proof. vm_compute. repeat split. Qed.
+(* ---- end audit follow-up ---- *)
